@@ -37,7 +37,7 @@ func init() {
 		Assumptions:  []string{"process death, not power loss: a completed write(2) survives"},
 	}, runC08)
 	register("C07", propMeta{
-		Explanation:  "Decides undo coverage and lock release on every error exit: (R1) the table step -> {log site in phase1Commit/NewBtree, guarded undo block in the live rollback, guarded undo block in the dead-transaction log replay} is extracted from the code and must be complete for every step with a persistent effect, each undo calling the matching undo function; (R2) the live-rollback guard of a step whose action performs two persistent effects must also cover the state in which only the first effect happened; (R3) rollback releases node-key locks on every path and item locks once they may have been taken; a failed node-key Lock/DualLock attempt in phase1Commit is followed by Unlock before sleeping or retrying; (R4) log removal is on every terminal path; (R6) the undos that clear whatever reservation / deletion mark / root the registry holds run only under a strict `>` guard whose truth implies the step succeeded for this transaction.",
+		Explanation:  "Decides undo coverage and lock release on every error exit: (R1) the table step -> {log site in phase1Commit/NewBtree, guarded undo block in the live rollback, guarded undo block in the dead-transaction log replay} is extracted from the code and must be complete for every step with a persistent effect, each undo calling the matching undo function; (R2) the live-rollback guard of a step whose action performs two persistent effects must also cover the state in which only the first effect happened; (R3) rollback releases node-key locks on every path and item locks once they may have been taken; a failed node-key Lock/DualLock attempt in phase1Commit is followed by Unlock before sleeping or retrying; (R4) log removal is on every terminal path; (R6) the undos that clear whatever reservation / deletion mark / root the registry holds run only under a strict `>` guard whose truth implies the step succeeded for this transaction. (R7) a first root's blob is written before its handle is registered; (R8) what an undo function looks up in the registry is recorded there before the data it leads to is written.",
 		DoesNotCover: "That the undo functions restore byte-identical state is not decided (C10 decides which ids they may delete); fault schedules are not executed.",
 	}, runC07)
 }
@@ -66,20 +66,24 @@ func logCalls(g *Graph, step types.Object) NPred {
 	}
 }
 
-func runC08(c *Ctx) {
+type logActStep struct{ step, action string }
+
+var logActSteps = []logActStep{
+	{"lockTrackedItems", kTxLockTracked},
+	{"commitTrackedItemsValues", kTxCommitValues},
+	{"commitNewRootNodes", kNRBcommitNewRoot},
+	{"commitRemovedNodes", kNRBcommitRemoved},
+	{"commitAddedNodes", kNRBcommitAdded},
+	{"commitStoreInfo", kTxCommitStores},
+}
+
+// logBeforeActRule (C08.R1, rows shared by C15.R6): in phase1Commit every step is logged before it acts, on
+// first and on repeated execution (the retry loop's rollback rewinds committedState).
+func logBeforeActRule(c *Ctx, r1 string, steps []logActStep) {
 	w := c.W
-	r1 := c.Rule("R1", "log-before-act for every persistent commit step, on first and repeated execution; commitUpdatedNodes logs the ids it allocated right after the action", 16)
 	f := w.Fn(kTxp1)
 	g := w.G(f)
 	c.Analysed(f)
-	steps := []struct{ step, action string }{
-		{"lockTrackedItems", kTxLockTracked},
-		{"commitTrackedItemsValues", kTxCommitValues},
-		{"commitNewRootNodes", kNRBcommitNewRoot},
-		{"commitRemovedNodes", kNRBcommitRemoved},
-		{"commitAddedNodes", kNRBcommitAdded},
-		{"commitStoreInfo", kTxCommitStores},
-	}
 	for _, s := range steps {
 		so := w.Object("common", s.step)
 		isLog := logCalls(g, so)
@@ -90,8 +94,17 @@ func runC08(c *Ctx) {
 		c.Offences(g, offs, r1, "phase1Commit: log "+s.step+" precedes "+shortKey(s.action), f.Decl.Pos(), "the step is logged before it acts on every path from entry", "the action is reachable without its log record (a crash here leaves effects recovery does not know about)")
 		// repeated execution (retry loop): between two executions of the action there is a log
 		offs = g.MustFollow(g.Find(isAct), isLog, isAct)
-		c.Offences(g, offs, r1, "phase1Commit: re-executed "+shortKey(s.action)+" is re-logged", f.Decl.Pos(), "after the action, it cannot run again without a new log record", "the action can run again in the retry loop without a new log record")
+		c.Offences(g, offs, r1, "phase1Commit: re-executed "+shortKey(s.action)+" is re-logged", f.Decl.Pos(), "after the action, it cannot run again without a new log record", "the action can run again in the retry loop without a new log record: the in-loop rollback rewound committedState, so the final rollback (which consults committedState) skips this step's undo")
 	}
+}
+
+func runC08(c *Ctx) {
+	w := c.W
+	r1 := c.Rule("R1", "log-before-act for every persistent commit step, on first and repeated execution; commitUpdatedNodes logs the ids it allocated right after the action", 16)
+	f := w.Fn(kTxp1)
+	g := w.G(f)
+	c.Analysed(f)
+	logBeforeActRule(c, r1, logActSteps)
 	// commitUpdatedNodes: log after, payload from the action's result
 	{
 		cu := g.callNodes(kNRBcommitUpdated)
@@ -195,7 +208,7 @@ func runC08(c *Ctx) {
 	}
 
 	// ---- R4 ----
-	r4 := c.Rule("R4", "fs.TransactionLog.Add flushes the buffered writer on every path before returning; priorityLog.Add writes through WriteFile", 2)
+	r4 := c.Rule("R4", "fs.TransactionLog.Add flushes the buffered writer on every path before returning and reports a failed flush; priorityLog.Add writes through WriteFile", 4)
 	{
 		fa := w.Fn("fs.TransactionLog.Add")
 		ga := w.G(fa)
@@ -204,6 +217,43 @@ func runC08(c *Ctx) {
 		offs := ga.MustFollow(enc, calls("bufio.Writer.Flush"), func(n *GNode) bool { return n.Exit })
 		c.Check(len(enc) == 1, r4, "fs.TransactionLog.Add: one Encode site", fa.Decl.Pos(), "found", fmt.Sprintf("found %d Encode sites", len(enc)), nil)
 		c.Offences(ga, offs, r4, "fs.TransactionLog.Add: record flushed before return", fa.Decl.Pos(), "every path from Encode to the exit calls writer.Flush", "Add can return with the record still in the bufio buffer")
+		// a flush that fails means the record is not in the file: Add must not report success after it
+		for _, n := range ga.Find(calls("bufio.Writer.Flush")) {
+			for _, cs := range n.Calls {
+				if cs.Key != "bufio.Writer.Flush" {
+					continue
+				}
+				construct := fmt.Sprintf("fs.TransactionLog.Add: a failed Flush #%d is reported", ordinalOf(w, fa, cs))
+				if n.Ret != nil && len(n.Ret.Results) == 1 && ast.Unparen(n.Ret.Results[0]) == ast.Expr(cs.Call) {
+					c.Held(r4, construct, cs.Call.Pos(), "the flush result is returned to the caller")
+					continue
+				}
+				r := ga.Reach([]int{n.ID}, nil, nil)
+				nilReachable := false
+				for _, x := range ga.Nodes {
+					if r.Seen[x.ID] && x.Ret != nil && ga.ClassifyReturn(x) != RetNonNil {
+						nilReachable = true
+					}
+				}
+				if !nilReachable {
+					c.Held(r4, construct, cs.Call.Pos(), "every return after this flush is an error return already")
+					continue
+				}
+				fail, _, ok := ga.ErrBranches(n, cs)
+				if !ok {
+					c.Violated(r4, construct, cs.Call.Pos(), "the error of writer.Flush is dropped and Add can return nil after it: a record that did not reach the log file (disk full, I/O error) is reported as logged, and the commit performs the step without durable undo information", nil)
+					continue
+				}
+				rf := ga.Reach(fail, nil, nil)
+				var offs []Offence
+				for _, x := range ga.Nodes {
+					if rf.Seen[x.ID] && x.Ret != nil && ga.ClassifyReturn(x) != RetNonNil {
+						offs = append(offs, Offence{x, rf.Path(x.ID)})
+					}
+				}
+				c.Offences(ga, offs, r4, construct, cs.Call.Pos(), "the failure edge of Flush reaches only error returns", "Add can return nil after a failed flush")
+			}
+		}
 		fpl := w.Fn("fs.priorityLog.Add")
 		gpl := w.G(fpl)
 		c.Analysed(fpl)
@@ -472,6 +522,8 @@ func runC07(c *Ctx) {
 	commitUndoRules(c, r1, r2, r3, r5, r4)
 	r7 := c.Rule("R7", "a first root's handle is registered only after its blob was written: the root id is published in StoreInfo.RootNodeID, so a registered handle without a blob is reachable data that does not load, and (the partial step not being undone, R2) it blocks every later creator of that root for good, whereas an orphan blob is overwritten by the retry", 1)
 	rootBlobBeforeHandleRule(c, r7)
+	r8 := c.Rule("R8", "what an undo function looks up in the registry is recorded there before the data it leads to is written (derived from the undo functions; shared with C11.R5)", 3)
+	undoDiscoveryRule(c, r8)
 	r6 := c.Rule("R6", "undo functions that cannot tell this transaction's state from a competitor's run only in a state that implies the step succeeded for this transaction (shared with C37.R4)", 6)
 	foreignBlindUndoRule(c, r6)
 }
